@@ -456,6 +456,105 @@ Theorem C01_partition_fill_linked :
 Proof. exact partition_fill_level0_linked. Qed.
 Print Assumptions C01_partition_fill_linked.
 
+From T4V Require C13.LinkC01Orig.
+From T4V Require Import C01.PrinterC C01.LinkFill2 C01.LinkNode C01.LinkC11C05.
+
+(* the FILL theorem SHARPENED (round 4), about the printed lines WITH their
+   `// idorigin` comment read back (PrinterC.v):
+   (b) the generated cell k is converted iff the CONTAINER kcl has importance <> 0
+       (pot_fill's cell.copy(): C05's fill_phase_spec / GenOK; the TRCL loop and
+       inline_cells keep the fields; todo is conv_keys of construct_volume_t4);
+   (c) the read-back volume k carries the provenance of the descent, v_orig =
+       prov ch (C13's convert_cells_orig / written_orig over C01's definitions).
+   So: a point located along the descent ch below the level-0 container key lies,
+   when the container's importance is non-zero, in exactly one read-back
+   non-FICTIVE volume, which is numbered k and commented with the chain; and in
+   no volume when the importance is 0. *)
+Theorem C01_partition_fill_written_linked :
+  forall (T surf P : Type) (tr_empty : T -> bool) (teqb : T -> T -> bool)
+         (tr_surf : T -> surf -> surf) (inv : T -> P -> P) (sense : surf -> P -> bool),
+  (forall t o p, sense (tr_surf t o) p = sense o (inv t p)) ->
+  (forall a b, teqb a b = true -> tr_empty a = tr_empty b /\ forall p, inv a p = inv b p) ->
+  forall fuel5 cf ifd ifg num den (s0 s1 s2 : C05.Model.state T surf) rs cells3,
+  C05.Proofs.fresh_ok T surf s0 -> C05.Model.s_cache s0 = [] ->
+  NoDup (map fst (C05.Model.s_cells s0)) -> C05.Proofs.all_ref_free T surf s0 ->
+  (forall c cl, C05.Model.dget c (C05.Model.s_cells s0) = Some cl -> C05.Model.c_orig cl = []) ->
+  C05.Model.trcl_phase T surf tr_empty teqb tr_surf fuel5 (map fst (C05.Model.s_cells s0)) s0
+    = C05.Model.Ok s1 ->
+  C05.Model.fill_phase T surf tr_empty teqb tr_surf fuel5 cf ifd ifg s1 = C05.Model.Ok (rs, s2) ->
+  C05.Model.inline_cells T fuel5 num den (C05.Model.s_cells s2) = C05.Model.Ok cells3 ->
+  let s3 := C05.Proofs.set_cells T surf s2 cells3 in
+  let du := C05.Model.by_universe (C05.Model.s_cells s0) in
+  forall (key : Z) (ks : list Z) (kcl : C05.Model.cell T) (p : P) (ch : list Z)
+         sigma matching val u0 u1 fuel todo cnt0 s' rn skipped d',
+  In (key, ks) (combine (C05.Model.fill_keys (C05.Model.s_cells s0)) rs) ->
+  C05.Model.dget key (C05.Model.s_cells s0) = Some kcl ->
+  C05.Spec.LocW T surf P tr_empty inv sense s0 du key p ch true ->
+  C05.Spec.universe_partitionW T surf P tr_empty inv sense s0 du ->
+  (forall chs ch', C05.Spec.Paths T surf s0 du key chs -> In ch' chs ->
+     exists b', C05.Spec.LocW T surf P tr_empty inv sense s0 du key p ch' b') ->
+  (forall k o, C05.Model.dget k (C05.Model.s_surfs s3) = Some o ->
+     k <> 0 /\ exists ids, lookup k matching = Some ids /\ existsb (lit sigma) ids = sense o p) ->
+  (forall k ids, lookup k matching = Some ids -> Forall (fun x => x <> 0) ids) ->
+  (forall c cl, C05.Model.dget c (C05.Model.s_cells s3) = Some cl ->
+     C05.Spec.Den T surf P sense s3 p (C05.Model.c_geom cl) (val c)) ->
+  0 < u0 -> 0 < u1 -> consistent sigma u0 u1 ->
+  NoDup todo -> (forall k, In k todo -> k <= cnt0) ->
+  (forall k, In k todo <-> exists cl, C05.Model.dget k cells3 = Some cl /\ C05.Model.c_imp cl <> 0 /\
+                                      C05.Model.c_univ cl = 0 /\ C05.Model.c_fill cl = None) ->
+  convert_cells fuel (cells_of5 (C05.Model.s_cells s3)) matching u0 u1 todo (mkSt cnt0 [] [] []) = Ok s' ->
+  prune u0 u1 rn (vols s') = Ok d' ->
+  (forall r, rn = Some r -> respects sigma r) ->
+  (forall k, In k skipped -> k <= cnt0 /\ ~ In k todo) ->
+  (forall k', In k' todo ->
+     (exists cl, C05.Model.dget k' (C05.Model.s_cells s0) = Some cl /\ C05.Model.c_univ cl = 0) \/
+     (exists key' ks', In (key', ks') (combine (C05.Model.fill_keys (C05.Model.s_cells s0)) rs) /\
+                       In k' ks')) ->
+  (forall c cl, C05.Model.dget c (C05.Model.s_cells s0) = Some cl -> C05.Model.c_univ cl = 0 ->
+     c <> key -> val c = false) ->
+  ~ In key todo ->
+  exists k, In k ks /\
+    C05.Spec.RepresentsW T surf P tr_empty inv sense s0 du s3 key k ch /\
+    (In k todo <-> C05.Model.c_imp kcl <> 0) /\
+    exists Tb, read_table_c (print_table_c skipped d') = Some Tb /\
+      (C05.Model.c_imp kcl <> 0 ->
+         (forall j, in_volume sigma Tb j <-> j = k) /\
+         exists v, lookup k Tb = Some v /\ v_fict v = false /\ v_orig v = C05.Spec.prov ch) /\
+      (C05.Model.c_imp kcl = 0 -> forall j, ~ in_volume sigma Tb j).
+Proof. exact partition_fill_written_linked2. Qed.
+Print Assumptions C01_partition_fill_written_linked.
+
+(* COMPOSING the C11 link and the C05 link: C05's parsed deck s0 is built from
+   C11's table after complement elimination (tr5: C11 tree -> C05 tree; the other
+   card fields from an attribute function).  Its structural hypotheses (empty
+   cache, no CellRef yet, no provenance yet) hold, and the trees C05 starts from
+   denote, in C05's own Den, C11's mden of the MCNP expressions written on the
+   cards - so C05's LocW (location in the deck as written) and with it
+   C01_partition_fill_written_linked speak about the cell cards.  Faithful for decks
+   without TRCL on cell cards (the converter eliminates complements AFTER the TRCL
+   loop; fill transformations are unaffected). *)
+Theorem C01_cards_fill_linked : forall (cs : list C11.EndToEnd.card) rk,
+  Forall C11.EndToEnd.card_ok cs -> C11.Pipeline.table_ranked (C11.EndToEnd.deck_mc cs) rk ->
+  exists tbl F tbl',
+    C11.EndToEnd.build_table (C11.EndToEnd.deck_cards cs) = C11.Model.Ok tbl /\
+    (forall f, (F <= f)%nat -> C11.Model.eliminate_all f tbl = C11.Model.Ok tbl') /\
+    forall (T surf P : Type) (sense : surf -> P -> bool) (attr : N -> C05.Model.cell T)
+           (surfs : list (Z * surf)) (nck nsk : Z),
+      let s0 := s0_of T surf tbl' attr surfs nck nsk in
+      (forall n, C05.Model.c_orig (attr n) = []) ->
+      C05.Model.s_cache s0 = [] /\ C05.Proofs.all_ref_free T surf s0 /\
+      (forall c cl, C05.Model.dget c (C05.Model.s_cells s0) = Some cl -> C05.Model.c_orig cl = []) /\
+      (forall n e p (cd : N -> bool), C11.EndToEnd.deck_mc cs n = Some e ->
+         C11.Pipeline.mcnp_meaning (C11.EndToEnd.deck_mc cs) (sg5 surf P sense surfs p) cd ->
+         exists c' cl, C11.Model.lookup tbl' n = Some c' /\
+           C05.Model.dget (Z.of_N n) (C05.Model.s_cells s0) = Some cl /\
+           C05.Model.c_geom cl = tr5 (C11.Model.c_geom c') /\
+           (a_known5 surf surfs (C11.Model.c_geom c') = true ->
+            C05.Spec.Den T surf P sense s0 p (C05.Model.c_geom cl)
+                         (C11.Spec.mden cd (sg5 surf P sense surfs p) e))).
+Proof. exact cards_fill_linked. Qed.
+Print Assumptions C01_cards_fill_linked.
+
 (* non-vacuity: C05's example deck (two levels of universes) through TRCL / FILL /
    inlining and then through C01's conversion, prune and printer: the plain level-0
    cell 2 and the generated cells 27, 31, 34 are written under their numbers, and
